@@ -161,7 +161,8 @@ def impl_single(case):
                 'kids': {o: [(after.cols[k][1], after.cols[k][2]) for k in ks] for o, ks in kids.items()}, 'size': after.size,
                 'colvol_before': before.colvol, 'colvol_after': after.colvol, 'layers_before': layers,
                 'layers_after': [(float(l.bottom), float(l.top)) for l in g.layerlist],
-                'after_cols': {n: (v[2], v[3]) for n, v in after.cols.items()}, 'order': [c for c in before.cols]}
+                'after_cols': {n: (v[2], v[3]) for n, v in after.cols.items()}, 'order': [c for c in before.cols],
+                'after_centres': {n: v[4] for n, v in after.cols.items()}}
     except Exception as e:
         import traceback
         op = case['op']
@@ -229,6 +230,31 @@ def corr_refine(ctx, exe, pool, cases, name):
             ctx.disagreement(name, {'case': strip_case(case), 'column': n, 'line': l[:300]}, why, 'implementation children: %s' % (impl,))
     ctx.corr_cases(name, len(lines))
     return nd
+
+
+def corr_split_centre(ctx, exe, pool, cases, name):
+    """centre of the shrunk column after split_column: model (Model.qsplit_new_centre: the centroid
+    of the remaining triangle iff the source recomputes it unconditionally) against col.centre"""
+    results = pool.map(impl_single, cases, chunksize=8)
+    lines, meta = [], []
+    for case, res in zip(cases, results):
+        if 'error' in res or case['op']['name'] != 'split': continue
+        n = res['order'][case['op']['column']]
+        nm, poly, surf = res['before'][n]
+        i0 = case['op']['node']
+        lines.append('sc\t%d\t%s\t%s\t%s\tx' % (len(poly), i0 if 0 <= i0 < len(poly) else 99, qpts(poly), qpts([res['centres'][n]])))
+        meta.append((case, n, res))
+    out = vf.run_driver(exe, lines) if lines else []
+    for l, o, (case, n, res) in zip(lines, out, meta):
+        changed = n in res['kids']
+        got = res['after_centres'].get(n)
+        if o == 'FALSE': ok = not changed
+        else:
+            try: m = tuple(float(parse_q(x)) for x in o.split(','))
+            except Exception: m = None
+            ok = changed and m is not None and got is not None and all(abs(a - b) <= 1e-9 * res['size'] for a, b in zip(m, got))
+        if not ok: ctx.disagreement(name, {'case': strip_case(case), 'column': n, 'line': l[:300]}, o[:200], 'centre after split_column: %s' % (got,))
+    ctx.corr_cases(name, len(lines), specified_centres=sum(1 for c, _, _ in meta if c['mesh'].get('centres')))
 
 
 def corr_geometry(ctx, exe, rng, count):
@@ -379,13 +405,16 @@ def sweep(ctx, pool, family, cases, stats):
     results = pool.map(O.check_case, cases, chunksize=max(1, min(32, len(cases) // (4 * vf.NPROC) + 1)))
     nontriv = 0
     for case, res in zip(cases, results):
-        op = case['op']
+        op = case['op'] if 'op' in case else {'name': 'sequence:' + '>'.join(o['name'] for o in case['steps'])}
         trivial = res['status'] != 'ok'
         ctx.count((family, json.dumps(case, sort_keys=True, default=str)), nontrivial=not trivial)
         stats['status'][res['status'].split(':')[0]] += 1
         stats['op'][op['name'] + (':bisect=%s' % op.get('bisect') if op['name'] == 'refine' else '')
                     + (':edge' if op.get('edge') else '')] += 1
         if 'shape' in case: stats['shape'][case['shape']] += 1
+        if case['mesh'].get('centres') or (case['mesh']['kind'] == 'file' and case['mesh']['name'] in ('g1.dat', 'g2.dat', 'g3.dat', 'g5.dat', 'g6.dat')):
+            stats['centres']['specified:' + str(case['mesh'].get('centres', 'file'))] += 1
+        else: stats['centres']['not-specified'] += 1
         for cl in surface_classes(case): stats['surface'][cl] += 1
         for k, v in res.get('stats', {}).items(): stats['totals'][k] += v
         if res['status'].startswith('setup-failed'):
@@ -416,6 +445,8 @@ def make_cases(ctx, rng, infos, tr):
     if th: counts = {'g7.dat': (150, 0, 6), 'g6.dat': (60, 0, 4), 'g5.dat': (60, 0, 4), 'g1.dat': (60, 20, 6), 'g3.dat': (40, 20, 4), 'g2.dat': (40, 0, 3), 'g4.dat': (40, 0, 3)}
     else: counts = {'g7.dat': (12, 0, 2), 'g6.dat': (4, 0, 1), 'g5.dat': (4, 0, 1), 'g1.dat': (5, 3, 1), 'g3.dat': (3, 2, 1), 'g2.dat': (2, 0, 1), 'g4.dat': (2, 0, 1)}
     fam['shipped-geometries'] = shipped_cases(rng, infos, counts)
+    seq_infos = [dict(i, seq_reps=1) for i in infos if i['name'] in (('g1.dat', 'g3.dat', 'g5.dat', 'g6.dat', 'g7.dat') if th else ('g1.dat', 'g5.dat', 'g7.dat'))]
+    fam['operation-sequences'] = C.sequence_cases(rng, 12 if th else 3, seq_infos)
     return fam
 
 
@@ -456,7 +487,11 @@ def run(ctx):
                 'x operation: refine(every non-empty column subset of 2x2, 3x2, 3x3 [thorough: 4x3]; single columns, strips, L-shapes, blocks, '
                 'boundary sets, regions with holes, random subsets on larger meshes; second refinement of a refined mesh) with bisect in '
                 '{False, x, y, True} with and without bisect_edge_columns, decompose_columns, triangulate_column, split_column at every node, refine_layers(every '
-                'layer subset, factor 2..4). Distinct = distinct JSON of the case; non-trivial = the operation changed the geometry '
+                'layer subset, factor 2..4); and SEQUENCES of two or three of these operations (split>triangulate, split>refine, refine>split, '
+                'refine>triangulate, triangulate>refine, decompose>refine/split/triangulate, split>triangulate>refine, ... 18 + 4 patterns; later steps '
+                'aimed at the columns the previous step kept / created / touched / their neighbours) on geometries whose column centres are SPECIFIED '
+                '(column(..., centre=centroid | another interior point); shipped g1, g5 [thorough: g3, g6]) or not, every clause evaluated after each step. '
+                'Distinct = distinct JSON of the case; non-trivial = the operation changed the geometry '
                 '(empty selections, split at a foreign node, edge columns without refined side are counted as trivial).')
     ctx.trusted += ['Coq 8.16.1 kernel (coqc); vm_compute only on closed finite terms; no native_compute',
                     'tools/props/c11_translate.py (ast walk of mulgrids.py, fail-closed: literal tables, the nested transition_type in a 6-construct '
@@ -492,6 +527,7 @@ def run(ctx):
         ctx.log('driver %s' % ('built' if exe else 'NOT built'))
     rng = ctx.rng
     stats = {'status': collections.Counter(), 'op': collections.Counter(), 'shape': collections.Counter(), 'surface': collections.Counter(),
+             'centres': collections.Counter(),
              'totals': collections.Counter()}
     mp = multiprocessing.get_context('fork')
     with mp.Pool(vf.NPROC) as pool:
@@ -507,6 +543,7 @@ def run(ctx):
                 corr_refine(ctx, exe, pool, full, 'refine-children-vs-model(regions)')
                 corr_refine(ctx, exe, pool, fam['decompose-polygons'], 'decompose-children-vs-model')
                 corr_refine(ctx, exe, pool, fam['split-column'], 'split-children-vs-model')
+                corr_split_centre(ctx, exe, pool, fam['split-column'], 'split-centre-vs-model')
                 corr_refine(ctx, exe, pool, fam['triangulate-column'], 'triangulate-children-vs-model')
                 sw = [c for c in fam['surface-sweep'] if c['op']['name'] in ('decompose', 'triangulate', 'split')
                       or (c['op']['name'] == 'refine' and not c['op']['bisect'])]
@@ -528,6 +565,8 @@ def run(ctx):
             # bounded by case counts (deterministic), not by the clock
             r2 = random.Random(ctx.seed + 4711)
             sweep(ctx, pool, 'deep-surface-sweep', C.surface_cases(r2, 4 if ctx.thorough else 2), stats)
+            if ctx.new_failures: return
+            sweep(ctx, pool, 'deep-operation-sequences', C.sequence_cases(r2, 12 if ctx.thorough else 4, [i for i in infos if i['name'] in ('g1.dat', 'g5.dat', 'g6.dat')]), stats)
             if ctx.new_failures: return
             if tr is not None:
                 sweep(ctx, pool, 'deep-entry-gadgets', entry_cases(r2, tr, broken, 30), stats)
@@ -557,7 +596,7 @@ def replay(ctx, data):
     case = data.get('input')
     if not case: return True
     res = O.check_case(case)
-    print('replay: %s on %s -> status %s' % (case['op'], {k: v for k, v in case['mesh'].items() if k not in ('nodes', 'columns')}, res['status']))
+    print('replay: %s on %s -> status %s' % (case.get('op') or case.get('steps'), {k: v for k, v in case['mesh'].items() if k not in ('nodes', 'columns')}, res['status']))
     for f in res['failures']:
         print('  FAILS %s\n    observed: %s\n    required: %s' % (f['key'], f['observed'], f['required']))
     return bool(res['failures']) or res['status'].startswith('setup-failed')
